@@ -262,7 +262,18 @@ Definition step_h (h : hst) (v : vst) (o : op) : hst * res :=
                           (set_elem h (mkE tag ref (e_off e) len' false)) (h_bulk h) in
             (h', ROk [Some n; Some (pos + n); Some len'; Some (h_eof h')])
           else (h, RFail [Some pos; Some (e_len e); Some (h_eof h)])
-      | None => (mkH false 0 (h_ndds h) (h_free h) (-1) (set_elem h (mkE tag ref (-2) 0 false)) (h_bulk h), RUnspec)
+      | None =>
+          (* first write to a new element at position 0: a descriptor slot and [n] bytes at the end of the file *)
+          if h_known h && (pos =? 0) && (0 <? n) && negb (in_bulk h tag ref) then
+            match alloc_dd h with
+            | None => (h, RUnspec)
+            | Some h1 =>
+                let h2 := mkH (h_known h1) (h_eof h1) (h_ndds h1) (h_free h1) (Z.max (h_maxref h1) ref)
+                              (set_elem h1 (mkE tag ref (-1) (-1) false)) (h_bulk h1) in
+                let (h3, okb) := give_block h2 tag ref n false in
+                (h3, if okb then ROk [Some n; Some n; Some n; eofv h3] else RFail [Some 0; Some (-1); eofv h3])
+            end
+          else (mkH false 0 (h_ndds h) (h_free h) (-1) (set_elem h (mkE tag ref (-2) 0 false)) (h_bulk h), RUnspec)
       end
   | OHlWrite tag ref blen nblk pos n =>
       match find_elem h tag ref with
